@@ -15,6 +15,13 @@ set_option linter.unusedVariables false
     aucs   = auctions started by the operation `lotDenom:lot:bidDenom:maxBid,…`
     synced = GetSyncedDeposit rows | GetSyncedBorrow rows (`p` = the query panicked)
     probe  = result of an immediate AttemptKeeperLiquidation in a discarded context (after ok borrow/withdraw)
+    floor  = the harness's own log: `syncedDep|syncedBor|supIdx|brwIdx` as the previous case of the sequence left
+             them (`-` at the start of a sequence)
+    kind `params` = a governance params change (`SetParams`; the new money markets show in the cfg of the next `begin`)
+    extra of `begin` has a fourth part, one letter per denom: `s` = no money market in the params nor in the store
+             (the begin blocker skips the denom), anything else = it accrues with the market given in cfg (the store's;
+             the params' one for a denom being listed)
+    extra = `unlisted=0,1,0` on other kinds: denoms that have no money market (their price in cfg is 0)
 
   The handler (1) runs the Lean model on the observed pre-state and compares result class, error code,
   post-state and auctions (MISMATCH), and (2) evaluates the property predicates on the implementation's
@@ -98,25 +105,50 @@ def resS : Res St → String
   | .err e => "err:" ++ errCode e
   | .panic => "panic"
 
+/-- result class when some denom has no money market (`anyUnl`): the keeper looks a money market up exactly where it
+    then looks the price up, so the model's price errors (price 0 in the cfg of an unlisted denom; listed denoms
+    always have a price in the harness) are the keeper's `ErrMarketNotFound` -/
+def resU (anyUnl : Bool) : Res St → String
+  | .err .priceNotFound => if anyUnl then "err:" ++ errCode .marketNotFound else "err:" ++ errCode .priceNotFound
+  | .err .noValidPrice => if anyUnl then "err:" ++ errCode .marketNotFound else "err:" ++ errCode .noValidPrice
+  | r => resS r
+
+/-- `unlisted=0,1,0` → flags per denom -/
+def unlisted (extra : String) : Nat → Bool :=
+  match extra.splitOn "=" with
+  | ["unlisted", fl] =>
+    let l := (fl.splitOn ",").map (fun t => t.trimAscii.toString == "1")
+    fun d => l.getD d false
+  | _ => fun _ => false
+
 /-! ### running the model -/
 
-def beginBlock (cfg : Cfg) (s : St) (now : Int) (phis : List Int) (apys : List Bool) : Res St :=
-  cfg.ds.foldl (fun acc d => match acc with
-    | .ok s => accrue cfg s d now ⟨phis.getD d P⟩ (apys.getD d false)
-    | r => r) (.ok s)
+/-- `hard.BeginBlocker` = `ApplyInterestRateUpdates`: every denom that has a money market (in the params or in the
+    store) accrues with the effective market of the cfg, the others are skipped -/
+def beginBlock (cfg : Cfg) (s : St) (now : Int) (phis : List Int) (apys : List Bool) (modes : List Char) : Res St :=
+  applyRateUpdates cfg now (fun d => modes.getD d 'a' != 's') (fun d => ⟨phis.getD d P⟩) (fun d => apys.getD d false) cfg.ds s
 
 def runOp (kind : String) (cfg : Cfg) (s : St) (a b : Nat) (coins : Coins) (extra : String) : Option (Res St) :=
   match kind with
-  | "deposit" => some (deposit cfg s a coins)
+  | "deposit" =>
+    -- `ValidateDeposit` (after the supply sync): a coin without money market is refused
+    if (supp cfg.ds coins).any (unlisted extra) then
+      some (match deposit cfg s a coins with | .panic => .panic | _ => .err .invalidDepositDenom)
+    else some (deposit cfg s a coins)
   | "withdraw" => some (withdraw cfg s a coins)
   | "borrow" => some (borrow cfg s a coins)
   | "repay" => some (repay cfg s a b coins)
   | "liquidate" => some (liquidate cfg s a b)
+  | "params" => some (.ok s)   -- `SetParams`: no x/hard state besides the params
   | "begin" =>
     match extra.splitOn ";" with
     | [now, phis, apys] =>
       match int? now, ints? phis, (apys.splitOn ",").mapM bool? with
-      | some now, some phis, some apys => some (beginBlock cfg s now phis apys)
+      | some now, some phis, some apys => some (beginBlock cfg s now phis apys [])
+      | _, _, _ => none
+    | [now, phis, apys, modes] =>
+      match int? now, ints? phis, (apys.splitOn ",").mapM bool? with
+      | some now, some phis, some apys => some (beginBlock cfg s now phis apys modes.trimAscii.toString.toList)
       | _, _, _ => none
     | _ => none
   | _ => none
@@ -174,6 +206,84 @@ def predBegin (nd : Nat) (pre post : St) (spre spost : String) : String :=
           | some why => predfail "C08_synced_monotone" s!"borrow-{why}"
           | none => "ok"
       | _, _ => badInput "synced"
+
+/-! "With no action by the user a deposit's claimable amount and a borrow's owed amount never decrease": evaluated on
+    the queries of the real keeper for EVERY case — (i) from the harness's log of the previous case to this case's
+    pre-state (nothing but price moves happens in between), (ii) across the case for every user it does not act on
+    (bystanders of a message, everybody for a begin blocker or a params change) — and on the global factors. -/
+
+structure Floor where
+  dep : List (Option (List Int))
+  bor : List (Option (List Int))
+  sup : List (Option Int)
+  brw : List (Option Int)
+
+def floor? (s : String) : Option (Option Floor) :=
+  if s.trimAscii.toString == "-" then some none else
+  match s.splitOn "|" with
+  | [d, b, su, br] =>
+    match optInts? su, optInts? br with
+    | some su, some br => some (some ⟨syncedRows d, syncedRows b, su, br⟩)
+    | _, _ => none
+  | _ => none
+
+/-- first user (not in `skip`) whose synced row decreased in some denom, or whose query worked before and panics now -/
+def rowsDrop (skip : List Nat) (pre post : List (Option (List Int))) : Option String :=
+  (List.range pre.length).findSome? fun u =>
+    if skip.contains u then none else
+    match pre.getD u none, post.getD u none with
+    | some a, some b =>
+      (List.range a.length).findSome? fun d =>
+        if b.getD d 0 < a.getD d 0 then some s!"decreased user={u} denom={d} from={a.getD d 0} to={b.getD d 0}" else none
+    | some a, none => if u < post.length then some s!"query-panics user={u}" else none
+    | _, _ => none
+
+/-- first denom whose global factor decreased or disappeared -/
+def idxDrop (nd : Nat) (a b : Nat → Option Int) : Option String :=
+  (List.range nd).findSome? fun d =>
+    match a d, b d with
+    | some x, some y => if y < x then some s!"denom={d} from={x} to={y}" else none
+    | some x, none => some s!"denom={d} from={x} to=none"
+    | _, _ => none
+
+def predMono (kind : String) (nd : Nat) (pre : St) (post : Option St) (spre spost : String) (fl : Option Floor)
+    (touched : List Nat) : String :=
+  match spre.splitOn "|", spost.splitOn "|" with
+  | [dp, bp], [dq, bq] =>
+    -- the user-visible clause first (amounts, queries), then the global factors
+    let since : String :=
+      match fl with
+      | none => "ok"
+      | some f =>
+        match rowsDrop [] f.dep (syncedRows dp) with
+        | some w => predfail "C08_interest_monotone" s!"deposit-{w} since-previous-case"
+        | none =>
+        match rowsDrop [] f.bor (syncedRows bp) with
+        | some w => predfail "C08_interest_monotone" s!"borrow-{w} since-previous-case"
+        | none =>
+        match idxDrop nd (ofn f.brw) pre.brwIdx with
+        | some w => predfail "C08_borrow_index_monotone" s!"since-previous-case {w}"
+        | none =>
+        match idxDrop nd (ofn f.sup) pre.supIdx with
+        | some w => predfail "C08_supply_index_monotone" s!"since-previous-case {w}"
+        | none => "ok"
+    if since != "ok" then since else
+    match post with
+    | none => "ok"
+    | some post =>
+      match rowsDrop touched (syncedRows dp) (syncedRows dq) with
+      | some w => predfail "C08_interest_monotone" s!"deposit-{w} no-action-by-user across={kind}"
+      | none =>
+      match rowsDrop touched (syncedRows bp) (syncedRows bq) with
+      | some w => predfail "C08_interest_monotone" s!"borrow-{w} no-action-by-user across={kind}"
+      | none =>
+      match idxDrop nd pre.brwIdx post.brwIdx with
+      | some w => predfail "C08_borrow_index_monotone" s!"across={kind} {w}"
+      | none =>
+      match idxDrop nd pre.supIdx post.supIdx with
+      | some w => predfail "C08_supply_index_monotone" s!"across={kind} {w}"
+      | none => "ok"
+  | _, _ => badInput "synced"
 
 /-- the borrower's position as `AttemptKeeperLiquidation` syncs it (model sync on the observed pre-state) -/
 def syncedPos (cfg : Cfg) (pre : St) (u : Nat) : Option (Coins × Coins) :=
@@ -254,13 +364,14 @@ def syncedModel (nu nd : Nat) (s : St) : String :=
 
 /-! ### the handler -/
 
-def handle : Handler
-  | [kind, cfgS, minB, preS, a, b, coinsS, extra, _, result, postS, aucs, spre, spost, probe] =>
-    match cfg? cfgS minB, st? preS, nat? a, nat? b, ints? coinsS with
-    | some cfg, some pre, some a, some b, some coinsL =>
+def handleCore (kind cfgS minB preS a b coinsS extra result postS aucs spre spost probe floorS : String) : String :=
+    match cfg? cfgS minB, st? preS, nat? a, nat? b, ints? coinsS, floor? floorS with
+    | some cfg, some pre, some a, some b, some coinsL, some fl =>
       let coins := fn coinsL
       let nd := cfg.ds.length
       let nu := (preS.splitOn "|").head!.splitOn ";" |>.length
+      let anyUnl := (List.range nd).any (unlisted extra)
+      let resS := resU (anyUnl && kind != "begin")
       match runOp kind cfg pre a b coins extra with
       | none => badInput "op"
       | some res =>
@@ -274,7 +385,7 @@ def handle : Handler
         else
         -- (2) first: the property predicates on the implementation's own observation, whether or not the model
         -- agrees with it (a PREDFAIL outranks a MISMATCH on the same case)
-        let implPred : String :=
+        let kindPred : String :=
           if result != "ok" then "ok" else
           match st? postS with
           | none => "ok"
@@ -287,7 +398,21 @@ def handle : Handler
             | "deposit" => if !frameOk nu nd pre post [a] then predfail "C08_frame" "deposit-touched-other-user" else "ok"
             | "liquidate" => predLiquidate cfg nu nd pre post a b aucs
             | _ => "ok"
-        if implPred.startsWith "PREDFAIL" then implPred
+        -- the users whose records the message is about (their amounts change by their own / an allowed action)
+        let touched : List Nat :=
+          match kind with
+          | "deposit" | "withdraw" | "borrow" => [a]
+          | "repay" | "liquidate" => [b]
+          | _ => []
+        let mono := predMono kind nd pre (if result == "ok" then st? postS else none) spre spost fl touched
+        -- across a begin blocker / params change the user-visible clause (a claimable / owed amount decreased, a query
+        -- broke) is named first, the factor that caused it in brackets; otherwise the kind's own predicates come first
+        let implPred : String :=
+          if (kind == "begin" || kind == "params") && mono.startsWith "PREDFAIL C08_interest_monotone" then
+            (if kindPred.startsWith "PREDFAIL" then mono ++ " [" ++ kindPred ++ "]" else mono)
+          else if kindPred.startsWith "PREDFAIL" then kindPred
+          else mono
+        if implPred.startsWith "PREDFAIL" || implPred.startsWith "BADINPUT" then implPred
         -- (1) model vs implementation
         else if resS res != result then mismatch "result" (resS res) result
         else if syncedModel nu nd pre != spre then mismatch "synced-queries" (syncedModel nu nd pre) spre
@@ -303,7 +428,13 @@ def handle : Handler
           else if (st? postS).isNone then badInput "post"
           else implPred
         | _ => "ok"
-    | _, _, _, _, _ => badInput "parse"
+    | _, _, _, _, _, _ => badInput "parse"
+
+def handle : Handler
+  | [kind, cfgS, minB, preS, a, b, coinsS, extra, _, result, postS, aucs, spre, spost, probe] =>
+    handleCore kind cfgS minB preS a b coinsS extra result postS aucs spre spost probe "-"
+  | [kind, cfgS, minB, preS, a, b, coinsS, extra, _, result, postS, aucs, spre, spost, probe, floorS] =>
+    handleCore kind cfgS minB preS a b coinsS extra result postS aucs spre spost probe floorS
   | _ => badInput "arity"
 
 /-- pure correspondence of the sync formulas: `a ui g => SyncSupplyInterest SyncBorrowInterest GetSyncedDeposit GetSyncedBorrow` -/
